@@ -345,9 +345,12 @@ def evaluate(cfg):
         else:
             from .C10 import gen_perms
             perms = gen_perms(ncart)
-        for ctype in ("cartesian", "spherical"):
+        for ctype, ptype in (("cartesian", "spherical"), ("spherical", "spherical"), ("spherical", "cartesian"),
+                             ("cartesian", "cartesian")):
+            if len(perms) > 30 and ctype != ptype and quick:
+                continue  # quick tier, complete permutation sets: the two uniform type patterns
             base = al.shell(l, cs[0], 2, 2, ctype, pat=1)
-            partner = al.shell(1, cs[1], 1, 1, "spherical", pat=1)
+            partner = al.shell(1, cs[1], 1, 1, ptype, pat=1)
             env = default_env([base, partner], "c09conv")
             ex = Explorer(o, iq, dq, tol=1e-10, eri_cap=40, dens_every=max(1, len(perms) // 6))
             seed = System([base, partner], None, env)
@@ -382,22 +385,32 @@ def evaluate(cfg):
         perms = gen_perms(nsph)
         signs = [[1] * nsph, [-1] * nsph] + [[-1 if i == j else 1 for i in range(nsph)] for j in range(0, nsph, 2)]
     base = al.shell(l, cs[0], 2, 2, "spherical", pat=1)
-    partner = al.shell(1, cs[1], 1, 1, "cartesian", pat=1)
-    env = default_env([base, partner], "c09conv")
-    ex = Explorer(o, iq, dq, tol=1e-10, eri_cap=40, dens_every=max(1, len(perms) * len(signs) // 6))
-    seed = System([base, partner], None, env)
+    n_edge = 0
+    # the partner is Cartesian (mixed-type assembly path) or spherical (all-spherical path), alternating per edge
+    partners = [al.shell(1, cs[1], 1, 1, "cartesian", pat=1), al.shell(1, cs[1], 1, 1, "spherical", pat=1)]
+    exs = []
+    for partner in partners:
+        env = default_env([base, partner], "c09conv")
+        exs.append((Explorer(o, iq, dq, tol=1e-10, eri_cap=40, dens_every=max(1, len(perms) * len(signs) // 12)),
+                    System([base, partner], None, env), partner, env))
     for p in perms:
         for s in signs:
             if list(p) == list(range(nsph)) and all(v == 1 for v in s):
                 continue
-            var = base.with_(sph_order=[("-" if sg < 0 else "") + labs[i] for i, sg in zip(p, s)])
-            P = np.zeros((nsph, nsph))
-            for r, (i, sg) in enumerate(zip(p, s)):
-                P[r, i] = sg
-            L = blockdiag([np.kron(np.eye(base.M), P), np.eye(partner.nfunc)])
-            ex.check_edge(seed, System([var, partner], None, env), L, "sph convention")
-    o.notes["bfs_states"] = o.notes.get("bfs_states", 0) + ex.states
-    o.notes["bfs_edges"] = o.notes.get("bfs_edges", 0) + ex.edges
+            n_edge += 1
+            both = (not quick) or l != 2
+            for k, (ex, seed, partner, env) in enumerate(exs):
+                if not both and k != n_edge % 2:
+                    continue
+                var = base.with_(sph_order=[("-" if sg < 0 else "") + labs[i] for i, sg in zip(p, s)])
+                P = np.zeros((nsph, nsph))
+                for r, (i, sg) in enumerate(zip(p, s)):
+                    P[r, i] = sg
+                L = blockdiag([np.kron(np.eye(base.M), P), np.eye(partner.nfunc)])
+                ex.check_edge(seed, System([var, partner], None, env), L, "sph convention (partner %s)" % partner.ctype)
+    for ex, _, _, _ in exs:
+        o.notes["bfs_states"] = o.notes.get("bfs_states", 0) + ex.states
+        o.notes["bfs_edges"] = o.notes.get("bfs_edges", 0) + ex.edges
     return o
 
 
